@@ -92,6 +92,7 @@ EpochManager::CreateEpochGuard()  //
 {
   auto &tls = tls_fields_[IDManager::GetThreadID()];
   if (tls.heartbeat.expired()) {
+    CPP_UTILITY_VERIF_POINT("epoch.create.rebind", &tls)
     tls.epoch.SetGrobalEpoch(&global_epoch_);
     tls.heartbeat = IDManager::GetHeartBeat();
   }
@@ -135,6 +136,7 @@ EpochManager::CollectProtectedEpochs(  //
 
   for (size_t i = 0; i < kMaxThreadNum; ++i) {
     auto &tls = tls_fields_[i];
+    CPP_UTILITY_VERIF_POINT("epoch.collect.slot", &tls)
     if (tls.heartbeat.expired()) continue;
 
     const auto protected_epoch = tls.epoch.GetProtectedEpoch();
@@ -181,6 +183,7 @@ EpochManager::RemoveOutDatedLists(  //
     if (prev != current) {
       // remove the out-dated list
       prev->next = current->next;
+      CPP_UTILITY_VERIF_POINT("epoch.retire.delete", current)
       delete current;
       current = prev->next;
     }
